@@ -344,6 +344,24 @@ def r9_digit_fast_path(ctx):
         for c in sorted(signs):
             want = [sym.canon(sym.parse_expr(f"np.any({first} == {c!r})")), sym.canon(sym.parse_expr(f"np.any({c!r} == {first})"))]
             ok = any((not v) and any(w == k or f"({w})" == k for w in want) for k, v in facts)
+            if not ok:
+                # the same exclusion in one reduction: np.any(A | B | ...) false excludes every operand
+                cands = [sym.canon(sym.parse_expr(f"{first} == {c!r}")), sym.canon(sym.parse_expr(f"{c!r} == {first}"))]
+                for t, lab in cfg.guards(n):
+                    if t.kind != "test" or lab not in ("F", False):
+                        continue
+                    tt = inline_locals(t.ast, env)
+                    if not (isinstance(tt, ast.Call) and u(tt.func) == "np.any" and len(tt.args) == 1):
+                        continue
+                    todo, ops = [tt.args[0]], []
+                    while todo:
+                        x = todo.pop()
+                        if isinstance(x, ast.BinOp) and isinstance(x.op, ast.BitOr):
+                            todo += [x.left, x.right]
+                        else:
+                            ops.append(sym.canon(x))
+                    if any(o in cands for o in ops):
+                        ok = True
             ctx.ob(g.where, f"the digit fast path (no sign masks) is taken only where no field starts with {c!r}: every sign str_to_int recognises sends the column "
                    "down the ragged path with its masks", ok, f"guards: {sorted(k for k, v in facts if not v)}", key=f"C18-R9|fast-path-excludes|{c}", definite=True)
 
